@@ -243,6 +243,10 @@ def execute(ctx, prog, display, terminal, firings, height, strategy, strat_kind,
     console._lock = coop.CoopRLock(sched, "console._lock")
     console._record_buffer_lock = coop.CoopRLock(sched, "console._record_buffer_lock")
     events = []          # (step, thread, kind, detail)
+    # builtin print() from the threads goes through the display's redirect (sys.stdout is a FileProxy while it runs)
+    redirect = any(op[0] == "pyprint" for ops in prog for op in ops)
+    import sys as _sys
+    saved_std = (_sys.stdout, _sys.stderr)
     cur_op = {}          # thread name -> kind of the operation it is executing
     captures = {}
     frames = {}          # frame id -> lines
@@ -250,12 +254,12 @@ def execute(ctx, prog, display, terminal, firings, height, strategy, strat_kind,
     if display.startswith("live"):
         from rich.live import Live
         live = Live(Text("F0_0-0"), console=console, auto_refresh=display == "live_auto", refresh_per_second=10,
-                    transient=transient, redirect_stdout=False, redirect_stderr=False)
+                    transient=transient, redirect_stdout=redirect, redirect_stderr=redirect)
         frames["F0_0"] = ["F0_0-0"]
     elif display.startswith("progress"):
         from rich.progress import Progress
         live = Progress(console=console, auto_refresh=display == "progress_auto", refresh_per_second=10,
-                        redirect_stdout=False, redirect_stderr=False, get_time=lambda: 5.0)
+                        redirect_stdout=redirect, redirect_stderr=redirect, get_time=lambda: 5.0)
     if live is not None:
         orig_hook = live.process_renderables
 
@@ -281,6 +285,8 @@ def execute(ctx, prog, display, terminal, firings, height, strategy, strat_kind,
         elif k == "log":
             # threads log from two different source lines (the line is shown at the right when log_path is on)
             LOG_SITES[th % 2][0](console, Text("B:%s E:%s" % (op[1], op[1])))
+        elif k == "pyprint":
+            print("B:%s E:%s" % (op[1], op[1]), file=_sys.stderr if th % 2 else _sys.stdout)
         elif k == "capture":
             with console.capture() as cap:
                 console.print(Text("\n".join(payload_lines(op[1], 2))))
@@ -358,7 +364,7 @@ def execute(ctx, prog, display, terminal, firings, height, strategy, strat_kind,
     writers = set()
     for th, ops in enumerate(prog):
         for op in ops:
-            if op[0] in ("print", "log"):
+            if op[0] in ("print", "log", "pyprint"):
                 pid = op[1]
                 b, e = "B:%s" % pid, "E:%s" % pid
                 nb, ne = len(re.findall(re.escape(b) + r"(?!\d)", text)), len(re.findall(re.escape(e) + r"(?!\d)", text))
